@@ -59,11 +59,20 @@ pub fn run(args: &[String]) {
         let maxstep = match rng.below(6) { 0 => Some(span / 7.0), 1 => Some(f64::INFINITY), 2 => Some(span * 0.011), _ => None };
         let nmax = if rng.chance(0.25) { 1 + rng.below(40) } else { 100_000 };
         let dense = rng.chance(0.75);
+        // directed: a stiff problem long enough for the stiffness detector of DOPRI5 / DOP853 to end the run (ProbablyStiff)
+        let stiff_exit = id % 40 == 7;
+        let (kind, method, p, n, span, back, x0, xend, sgn) = if stiff_exit {
+            let m = if (id / 40) % 2 == 0 { Method::DOPRI5 } else { Method::DOP853 };
+            (Kind::Stiff, m, Prob::new(Kind::Stiff), 2, 12.0, false, 0.0, 12.0, 1.0)
+        } else { (kind, method, p, n, span, back, x0, xend, sgn) };
+        let (rtol, atol, vector_tol) = if stiff_exit { (vec![1e-5; 2], vec![1e-8; 2], false) } else { (rtol, atol, vector_tol) };
+        let (first, maxstep, nmax) = if stiff_exit { (None, None, 100_000) } else { (first, maxstep, nmax) };
+        let _ = back;
         let h4 = sgn * span / (3.0 + rng.below(40) as f64 + if rng.chance(0.5) { 0.37 } else { 0.0 });
         // script
         let mut script: Vec<(usize, Reply)> = vec![];
         let mut script_s: Vec<String> = vec![];
-        for _ in 0..rng.below(3) {
+        for _ in 0..(if stiff_exit { 0 } else { rng.below(3) }) {
             let k = rng.below(12);
             if script.iter().any(|(j, _)| *j == k) { continue; }
             if rng.chance(0.35) { script.push((k, Reply::Interrupt)); script_s.push(format!("{}:I", k)); }
